@@ -813,10 +813,26 @@ static void run_stream(struct vf_rng *r, vbi_dvb_demux *dx, int cor, int empty_f
 	}
 }
 
+/* In one case of six the application has installed a log function for every level: the demultiplexer then formats
+   the bytes it rejects (log_block, log_du_ttx ...) - same frames, and the formatting must be memory safe too */
+static int log_on;
+static long log_msgs;
+static void log_sink(vbi_log_mask level, const char *context, const char *message, void *ud)
+{
+	(void)level; (void)ud;
+	if (context && message) log_msgs += (long)(strlen(context) + strlen(message)) > 0;
+}
+
 static vbi_dvb_demux *new_demux(const struct dg_cfg *c, int cor)
 {
+	vbi_dvb_demux *dx;
 	vf_phase("vbi_dvb_demux_new");
-	return c->ts ? _vbi_dvb_ts_demux_new(cor ? NULL : demux_cb, NULL, c->pid) : vbi_dvb_pes_demux_new(cor ? NULL : demux_cb, NULL);
+	dx = c->ts ? _vbi_dvb_ts_demux_new(cor ? NULL : demux_cb, NULL, c->pid) : vbi_dvb_pes_demux_new(cor ? NULL : demux_cb, NULL);
+	if (dx && log_on) {
+		vf_phase("vbi_dvb_demux_set_log_fn");
+		vbi_dvb_demux_set_log_fn(dx, (vbi_log_mask)0x7F8, log_sink, NULL);
+	}
+	return dx;
 }
 
 static const char *cuts_text(void)
@@ -991,6 +1007,7 @@ static int run_case(struct vf_rng *r, long idx)
 
 	if (vf_verbose) setvbuf(stdout, NULL, _IONBF, 0);
 	arena_used = 0;
+	log_on = vf_chance(r, 1, 6); log_msgs = 0;
 	memset(&c, 0, sizeof c);
 	c.ts = vf_chance(r, 1, 2);
 	c.pid = vf_chance(r, 1, 4) ? (unsigned[]){ 0x10, 0x1FFE, 0x100, 0x47, 0x1234, 0x0747 }[vf_below(r, 6)] : (unsigned)vf_range(r, 0x10, 0x1FFE);
@@ -1147,6 +1164,7 @@ static int run_case(struct vf_rng *r, long idx)
 		if (!reuse) { vf_phase("vbi_dvb_demux_delete"); vbi_dvb_demux_delete(d); }
 	}
 done:
+	if (log_on) { vf_count("streams_with_log_function", 1); vf_count("log_messages", log_msgs); }
 	vf_phase("vbi_dvb_demux_delete");
 	vbi_dvb_demux_delete(dx);
 	vbi_dvb_demux_delete(dxc);
